@@ -1,4 +1,1089 @@
-//! C20 — stub, replaced when the property's harness lands.
-use crate::util::{Em, Rng};
+//! C20 — same data, parameters and seed give bit-identical results on every run.
+//!
+//! Two kinds of cases:
+//!  * correspondence ops (`parfor`, `modal`, `nbargmax`, `labels`, `hier`): the real linfa code for the
+//!    disjoint-write parallel loops and for every hash-map fold is run (repeatedly, under rayon pools of
+//!    different sizes, with freshly seeded hash maps and permuted insertion orders) and compared with the
+//!    Lean model `Model/Determinism.lean` executed under an explicit schedule / iteration order;
+//!  * oracle-only runs (`#run …`): every seeded estimator is fitted repeatedly in this process, under
+//!    rayon pools of 1,2,3,4,8,16 threads and in freshly spawned child processes (fresh hash seeds);
+//!    the bit patterns of all learned quantities and predictions are compared.
+//!
+//! Child mode: when `VERIF_C20_CHILD=<seed>:<tier>` is set, `run` computes the battery once, prints
+//! one line `name<TAB>section<TAB>digest` per learned quantity and exits.
+use crate::util::{hex64, list, list2, Em, Rng};
+use linfa::prelude::*;
+use linfa::traits::{Fit, FitWith, Predict, Transformer};
+use linfa::dataset::Labels;
+use linfa::DatasetBase;
+use ndarray::{Array1, Array2, Axis};
+use std::collections::{BTreeMap, HashMap};
 
-pub fn run(_em: &mut Em, _rng: &mut Rng) {}
+// ------------------------------------------------------------------------------------------------
+// digests
+
+fn fnv(bytes: &[u8]) -> u64 {
+    let mut h: u64 = 0xcbf29ce484222325;
+    for b in bytes {
+        h ^= *b as u64;
+        h = h.wrapping_mul(0x100000001b3);
+    }
+    h
+}
+
+/// one learned quantity: name + raw bytes (bit patterns)
+type Sections = Vec<(String, Vec<u8>)>;
+
+fn f64s<'a>(it: impl IntoIterator<Item = &'a f64>) -> Vec<u8> {
+    it.into_iter().flat_map(|x| x.to_bits().to_le_bytes()).collect()
+}
+fn f32s<'a>(it: impl IntoIterator<Item = &'a f32>) -> Vec<u8> {
+    it.into_iter().flat_map(|x| x.to_bits().to_le_bytes()).collect()
+}
+fn usizes<'a>(it: impl IntoIterator<Item = &'a usize>) -> Vec<u8> {
+    it.into_iter().flat_map(|x| (*x as u64).to_le_bytes()).collect()
+}
+fn optusizes<'a>(it: impl IntoIterator<Item = &'a Option<usize>>) -> Vec<u8> {
+    it.into_iter().flat_map(|x| (x.map(|v| v as i64).unwrap_or(-1)).to_le_bytes()).collect()
+}
+fn bools<'a>(it: impl IntoIterator<Item = &'a bool>) -> Vec<u8> {
+    it.into_iter().map(|x| *x as u8).collect()
+}
+fn sec(name: &str, bytes: Vec<u8>) -> (String, Vec<u8>) {
+    (name.to_string(), bytes)
+}
+fn digest(s: &Sections) -> Vec<(String, String)> {
+    s.iter().map(|(n, b)| (n.clone(), format!("{:016x}/{}", fnv(b), b.len()))).collect()
+}
+
+// ------------------------------------------------------------------------------------------------
+// data for the estimator battery (deterministic in the data seed)
+
+struct Data {
+    /// generic float blobs, large enough that ndarray's parallel Zip is split
+    blobs: Array2<f64>,
+    /// small blobs for the cubic algorithms
+    small: Array2<f64>,
+    /// integer lattice with many duplicates and symmetric arrangements: ties are real ties
+    lat: Array2<f64>,
+    lat_y: Array1<usize>,
+    lat_w: Array1<f32>,
+    /// non-negative counts
+    counts: Array2<f64>,
+    /// regression design and targets
+    rx: Array2<f64>,
+    ry: Array1<f64>,
+    ry2: Array2<f64>,
+    rb: Array1<bool>,
+    rc: Array1<usize>,
+    /// queries
+    q: Array2<f64>,
+    qlat: Array2<f64>,
+    texts: Array1<String>,
+    nclass: usize,
+}
+
+fn normalish(r: &mut Rng) -> f64 {
+    (r.unit() + r.unit() + r.unit() + r.unit() - 2.0) * 1.7
+}
+
+fn make_data(seed: u64, thorough: bool) -> Data {
+    let mut r = Rng::new(seed ^ 0xC20C20);
+    let n_big = if thorough { 6000 } else { 2500 };
+    let d = 3 + r.below(3);
+    let k = 3 + r.below(4);
+    let centres: Vec<Vec<f64>> = (0..k).map(|_| (0..d).map(|_| (r.unit() - 0.5) * 20.0).collect()).collect();
+    let mut blobs = Array2::zeros((n_big, d));
+    for i in 0..n_big {
+        let c = &centres[r.below(k)];
+        for j in 0..d {
+            blobs[[i, j]] = c[j] + normalish(&mut r);
+        }
+    }
+    let n_small = 60 + r.below(40);
+    let mut small = Array2::zeros((n_small, 2));
+    for i in 0..n_small {
+        let c = &centres[r.below(k)];
+        for j in 0..2 {
+            small[[i, j]] = c[j] + normalish(&mut r) * 0.5;
+        }
+    }
+    // lattice classification data: few distinct rows, labels drawn independently => leaves with ties
+    let nclass = 2 + r.below(3);
+    let n_lat = 24 + 4 * r.below(10);
+    let dl = 1 + r.below(3);
+    let mut lat = Array2::zeros((n_lat, dl));
+    let mut lat_y = Array1::zeros(n_lat);
+    let mut lat_w = Array1::ones(n_lat);
+    for i in 0..n_lat {
+        for j in 0..dl {
+            lat[[i, j]] = r.range(-2, 2) as f64;
+        }
+        lat_y[i] = r.below(nclass);
+        lat_w[i] = *r.pick(&[1.0f32, 1.0, 2.0, 0.5, 0.3, 0.7]);
+    }
+    // mirror image with the labels cyclically shifted: symmetric class-conditional statistics
+    if r.coin() {
+        let half = n_lat / 2;
+        for i in 0..half {
+            for j in 0..dl {
+                lat[[half + i, j]] = -lat[[i, j]];
+            }
+            lat_y[half + i] = (lat_y[i] + 1) % nclass;
+        }
+    }
+    let mut counts = Array2::zeros((n_lat, 3));
+    for i in 0..n_lat {
+        for j in 0..3 {
+            counts[[i, j]] = r.below(4) as f64;
+        }
+    }
+    let half = n_lat / 2;
+    for i in 0..half {
+        for j in 0..3 {
+            counts[[half + i, j]] = counts[[i, 2 - j]];
+        }
+    }
+    let nr = 80 + r.below(60);
+    let p = 3 + r.below(3);
+    let mut rx = Array2::zeros((nr, p));
+    let beta: Vec<f64> = (0..p).map(|_| (r.unit() - 0.5) * 4.0).collect();
+    let mut ry = Array1::zeros(nr);
+    let mut ry2 = Array2::zeros((nr, 2));
+    let mut rb = Array1::from_elem(nr, false);
+    let mut rc = Array1::zeros(nr);
+    for i in 0..nr {
+        let mut s = 0.5;
+        for j in 0..p {
+            rx[[i, j]] = normalish(&mut r) + j as f64;
+            s += beta[j] * rx[[i, j]];
+        }
+        ry[i] = s + normalish(&mut r) * 0.3;
+        ry2[[i, 0]] = ry[i];
+        ry2[[i, 1]] = -0.5 * s + normalish(&mut r) * 0.2;
+        rb[i] = s + normalish(&mut r) > 0.5;
+        rc[i] = ((s + normalish(&mut r)).abs() as usize) % 3;
+    }
+    let nq = 40;
+    let mut q = Array2::zeros((nq, d));
+    for i in 0..nq {
+        for j in 0..d {
+            q[[i, j]] = (r.unit() - 0.5) * 24.0;
+        }
+    }
+    // every lattice point of [-2,2]^dl plus midpoints: queries that sit on decision ties
+    let side = 9usize;
+    let nql = side.pow(dl as u32).min(200);
+    let mut qlat = Array2::zeros((nql, dl));
+    for i in 0..nql {
+        let mut t = i;
+        for j in 0..dl {
+            qlat[[i, j]] = (t % side) as f64 * 0.5 - 2.0;
+            t /= side;
+        }
+    }
+    let words = ["ab", "cd", "ef", "gh", "ij", "kl", "mn", "op", "qr"];
+    let ntext = 12 + r.below(10);
+    let texts = Array1::from_vec(
+        (0..ntext)
+            .map(|_| {
+                let len = 1 + r.below(7);
+                (0..len).map(|_| *r.pick(&words)).collect::<Vec<_>>().join(" ")
+            })
+            .collect(),
+    );
+    Data { blobs, small, lat, lat_y, lat_w, counts, rx, ry, ry2, rb, rc, q, qlat, texts, nclass }
+}
+
+// ------------------------------------------------------------------------------------------------
+// the battery: every seeded / deterministic estimator reachable from the harness
+
+struct Item {
+    name: &'static str,
+    /// uses rayon inside (full pool sweep even in the quick tier)
+    parallel: bool,
+    f: fn(&Data) -> Sections,
+}
+
+fn it_kmeans_pp(d: &Data) -> Sections {
+    use linfa_clustering::KMeans;
+    let ds = DatasetBase::from(d.blobs.clone());
+    // default parameters: default seed (Xoshiro256Plus 42), k-means++ init
+    let params = KMeans::params(4).max_n_iterations(30).n_runs(2).tolerance(1e-4);
+    let m = params.fit(&ds).unwrap();
+    vec![
+        sec("centroids", f64s(m.centroids().iter())),
+        sec("inertia", f64s([m.inertia()].iter())),
+        sec("cluster_count", f64s(m.cluster_count().iter())),
+        sec("predict_train", usizes(m.predict(&d.blobs).iter())),
+        sec("predict_query", usizes(m.predict(&d.q).iter())),
+    ]
+}
+fn it_kmeans_random(d: &Data) -> Sections {
+    use linfa_clustering::{KMeans, KMeansInit};
+    use rand_xoshiro::rand_core::SeedableRng;
+    let ds = DatasetBase::from(d.blobs.clone());
+    let rng = rand_xoshiro::Xoshiro256Plus::seed_from_u64(7);
+    let m = KMeans::params_with_rng(5, rng).init_method(KMeansInit::Random).max_n_iterations(20).n_runs(3).tolerance(1e-3).fit(&ds).unwrap();
+    vec![
+        sec("centroids", f64s(m.centroids().iter())),
+        sec("inertia", f64s([m.inertia()].iter())),
+        sec("predict_train", usizes(m.predict(&d.blobs).iter())),
+    ]
+}
+fn it_kmeans_l1(d: &Data) -> Sections {
+    use linfa_clustering::KMeans;
+    use linfa_nn::distance::L1Dist;
+    use rand_xoshiro::rand_core::SeedableRng;
+    let ds = DatasetBase::from(d.blobs.clone());
+    let rng = rand_xoshiro::Xoshiro256Plus::seed_from_u64(11);
+    let m = KMeans::params_with(3, rng, L1Dist).max_n_iterations(15).n_runs(1).fit(&ds).unwrap();
+    vec![sec("centroids", f64s(m.centroids().iter())), sec("inertia", f64s([m.inertia()].iter())), sec("predict_query", usizes(m.predict(&d.q).iter()))]
+}
+fn it_kmeans_incr(d: &Data) -> Sections {
+    use linfa_clustering::KMeans;
+    let params = KMeans::params(3).tolerance(1e-3);
+    let mut model = None;
+    let n = d.blobs.nrows();
+    let bs = n / 5;
+    for b in 0..5 {
+        let batch = d.blobs.slice(ndarray::s![b * bs..(b + 1) * bs, ..]).to_owned();
+        let ds = DatasetBase::from(batch);
+        model = Some(match params.fit_with(model, &ds) {
+            Ok(m) => m,
+            Err(e) => match e {
+                linfa_clustering::IncrKMeansError::NotConverged(m) => m,
+                linfa_clustering::IncrKMeansError::InvalidParams(_) => panic!("invalid"),
+                _ => panic!("other"),
+            },
+        });
+    }
+    let m = model.unwrap();
+    vec![sec("centroids", f64s(m.centroids().iter())), sec("cluster_count", f64s(m.cluster_count().iter())), sec("predict_query", usizes(m.predict(&d.q).iter()))]
+}
+fn it_gmm(d: &Data) -> Sections {
+    use linfa_clustering::GaussianMixtureModel;
+    let n = d.blobs.nrows().min(800);
+    let ds = DatasetBase::from(d.blobs.slice(ndarray::s![..n, ..]).to_owned());
+    let m = GaussianMixtureModel::params(3).n_runs(2).max_n_iterations(25).tolerance(1e-3).fit(&ds).unwrap();
+    vec![
+        sec("weights", f64s(m.weights().iter())),
+        sec("means", f64s(m.means().iter())),
+        sec("covariances", f64s(m.covariances().iter())),
+        sec("predict_query", usizes(m.predict(&d.q).iter())),
+    ]
+}
+fn it_dbscan(d: &Data) -> Sections {
+    use linfa_clustering::Dbscan;
+    let a = Dbscan::params(3).tolerance(1.0).transform(&d.small).unwrap();
+    let b = Dbscan::params(2).tolerance(1.0).transform(&d.lat).unwrap();
+    vec![sec("labels_small", optusizes(a.iter())), sec("labels_lattice", optusizes(b.iter()))]
+}
+fn it_optics(d: &Data) -> Sections {
+    use linfa_clustering::Optics;
+    let a = Optics::params(3).tolerance(2.0).transform(d.small.view()).unwrap();
+    let b = Optics::params(2).tolerance(1.5).transform(d.lat.view()).unwrap();
+    let dump = |an: &linfa_clustering::OpticsAnalysis<f64>| {
+        let mut v = vec![];
+        for s in an.iter() {
+            v.extend((s.index() as u64).to_le_bytes());
+            v.extend(s.reachability_distance().unwrap_or(f64::INFINITY).to_bits().to_le_bytes());
+            v.extend(s.core_distance().unwrap_or(f64::INFINITY).to_bits().to_le_bytes());
+        }
+        v
+    };
+    vec![sec("order_small", dump(&a)), sec("order_lattice", dump(&b))]
+}
+fn it_hier(d: &Data) -> Sections {
+    use linfa_hierarchical::HierarchicalCluster;
+    use linfa_kernel::{Kernel, KernelMethod};
+    let mut out = vec![];
+    for (nm, data, nc) in [("small", &d.small, 3usize), ("lattice", &d.lat, 4usize)] {
+        let kernel = Kernel::params().method(KernelMethod::Gaussian(2.0)).transform(data.view());
+        let res = HierarchicalCluster::default().num_clusters(nc).transform(kernel).unwrap();
+        out.push(sec(&format!("labels_{}", nm), usizes(res.targets().iter())));
+    }
+    let kernel = Kernel::params().method(KernelMethod::Gaussian(2.0)).transform(d.small.view());
+    let res = HierarchicalCluster::default().max_distance(0.5).transform(kernel).unwrap();
+    out.push(sec("labels_maxdist", usizes(res.targets().iter())));
+    out
+}
+fn tree_sections(m: &linfa_trees::DecisionTree<f64, usize>, d: &Data) -> Sections {
+    let mut nodes = vec![];
+    for n in m.iter_nodes() {
+        nodes.extend((n.depth() as u64).to_le_bytes());
+        nodes.push(n.is_leaf() as u8);
+        if !n.is_leaf() {
+            let (f, v, imp) = n.split();
+            nodes.extend((f as u64).to_le_bytes());
+            nodes.extend(v.to_bits().to_le_bytes());
+            nodes.extend(imp.to_bits().to_le_bytes());
+        }
+        if let Some(p) = n.prediction() {
+            nodes.extend((p as u64).to_le_bytes());
+        }
+    }
+    vec![
+        sec("nodes", nodes),
+        sec("feature_importance", f64s(m.feature_importance().iter())),
+        sec("predict_train", usizes(m.predict(&d.lat).iter())),
+        sec("predict_query", usizes(m.predict(&d.qlat).iter())),
+    ]
+}
+fn it_tree_gini(d: &Data) -> Sections {
+    use linfa_trees::{DecisionTree, SplitQuality};
+    let ds = Dataset::new(d.lat.clone(), d.lat_y.clone());
+    let m = DecisionTree::params().split_quality(SplitQuality::Gini).max_depth(Some(3)).fit(&ds).unwrap();
+    tree_sections(&m, d)
+}
+fn it_tree_entropy_w(d: &Data) -> Sections {
+    use linfa_trees::{DecisionTree, SplitQuality};
+    let ds = Dataset::new(d.lat.clone(), d.lat_y.clone()).with_weights(d.lat_w.clone());
+    let m = DecisionTree::params().split_quality(SplitQuality::Entropy).max_depth(Some(4)).min_weight_leaf(1.0).fit(&ds).unwrap();
+    tree_sections(&m, d)
+}
+fn it_gnb(d: &Data) -> Sections {
+    use linfa_bayes::GaussianNb;
+    let ds = Dataset::new(d.lat.clone(), d.lat_y.clone());
+    let m = GaussianNb::params().fit(&ds).unwrap();
+    vec![sec("predict_train", usizes(m.predict(&d.lat).iter())), sec("predict_query", usizes(m.predict(&d.qlat).iter()))]
+}
+fn it_mnb(d: &Data) -> Sections {
+    use linfa_bayes::MultinomialNb;
+    let ds = Dataset::new(d.counts.clone(), d.lat_y.clone());
+    let m = MultinomialNb::params().fit(&ds).unwrap();
+    vec![sec("predict_train", usizes(m.predict(&d.counts).iter()))]
+}
+fn it_pca(d: &Data) -> Sections {
+    use linfa_reduction::Pca;
+    let n = d.blobs.nrows().min(500);
+    let ds = DatasetBase::from(d.blobs.slice(ndarray::s![..n, ..]).to_owned());
+    let m = Pca::params(2).fit(&ds).unwrap();
+    let mw = Pca::params(2).whiten(true).fit(&ds).unwrap();
+    vec![
+        sec("components", f64s(m.components().iter())),
+        sec("mean", f64s(m.mean().iter())),
+        sec("singular_values", f64s(m.singular_values().iter())),
+        sec("explained_variance", f64s(m.explained_variance().iter())),
+        sec("embed_query", f64s(m.predict(&d.q).iter())),
+        sec("embed_query_whitened", f64s(mw.predict(&d.q).iter())),
+    ]
+}
+fn it_randproj(d: &Data) -> Sections {
+    use linfa_reduction::random_projection::{GaussianRandomProjection, SparseRandomProjection};
+    let n = d.blobs.nrows().min(300);
+    let ds = DatasetBase::from(d.blobs.slice(ndarray::s![..n, ..]).to_owned());
+    let g = GaussianRandomProjection::<f64>::params().target_dim(2).fit(&ds).unwrap();
+    let s = SparseRandomProjection::<f64>::params().target_dim(2).fit(&ds).unwrap();
+    vec![sec("gaussian_query", f64s(g.transform(&d.q).iter())), sec("sparse_query", f64s(s.transform(&d.q).iter()))]
+}
+fn it_ica(d: &Data) -> Sections {
+    use linfa_ica::fast_ica::{FastIca, GFunc};
+    let n = d.blobs.nrows().min(400);
+    let ds = DatasetBase::from(d.blobs.slice(ndarray::s![..n, ..]).to_owned());
+    let m = FastIca::params().ncomponents(2).gfunc(GFunc::Logcosh(1.0)).max_iter(50).random_state(42).fit(&ds).unwrap();
+    vec![sec("sources_query", f64s(m.predict(&d.q).iter()))]
+}
+fn it_ftrl(d: &Data) -> Sections {
+    use linfa_ftrl::Ftrl;
+    let ds = Dataset::new(d.rx.clone(), d.rb.clone());
+    let params = Ftrl::params().alpha(0.05).beta(1.0).l1_ratio(0.01).l2_ratio(0.5);
+    let m = params.fit_with(None, &ds).unwrap();
+    let m2 = params.fit_with(Some(m.clone()), &ds).unwrap();
+    vec![
+        sec("z", f64s(m.z().iter())),
+        sec("n", f64s(m.n().iter())),
+        sec("z_second_pass", f64s(m2.z().iter())),
+        sec("predict", f32s(m2.predict(&d.rx).iter().map(|p| &**p))),
+    ]
+}
+fn it_linear(d: &Data) -> Sections {
+    use linfa_linear::{LinearRegression, TweedieRegressor};
+    let ds = Dataset::new(d.rx.clone(), d.ry.clone());
+    let m = LinearRegression::default().fit(&ds).unwrap();
+    let ypos = d.ry.mapv(|v| v.abs() + 0.1);
+    let dsp = Dataset::new(d.rx.clone(), ypos);
+    let t = TweedieRegressor::params().power(0.).alpha(0.1).max_iter(30).fit(&dsp).unwrap();
+    vec![
+        sec("ols_params", f64s(m.params().iter())),
+        sec("ols_intercept", f64s([m.intercept()].iter())),
+        sec("ols_predict", f64s(m.predict(&d.rx).iter())),
+        sec("tweedie_coef", f64s(t.coef.iter())),
+        sec("tweedie_intercept", f64s([t.intercept].iter())),
+    ]
+}
+fn it_elasticnet(d: &Data) -> Sections {
+    use linfa_elasticnet::{ElasticNet, MultiTaskElasticNet};
+    let ds = Dataset::new(d.rx.clone(), d.ry.clone());
+    let m = ElasticNet::params().penalty(0.1).l1_ratio(0.5).fit(&ds).unwrap();
+    let ds2 = Dataset::new(d.rx.clone(), d.ry2.clone());
+    let mt = MultiTaskElasticNet::params().penalty(0.1).l1_ratio(0.7).fit(&ds2).unwrap();
+    vec![
+        sec("hyperplane", f64s(m.hyperplane().iter())),
+        sec("intercept", f64s([m.intercept()].iter())),
+        sec("duality_gap", f64s([m.duality_gap()].iter())),
+        sec("mt_hyperplane", f64s(mt.hyperplane().iter())),
+        sec("mt_intercept", f64s(mt.intercept().iter())),
+    ]
+}
+fn it_logistic(d: &Data) -> Sections {
+    use linfa_logistic::{LogisticRegression, MultiLogisticRegression};
+    let ds = Dataset::new(d.rx.clone(), d.rb.clone());
+    let mut out = vec![];
+    // a fit error (e.g. a failed line search) is a result like any other: it must be the same every run
+    match LogisticRegression::default().max_iterations(40).fit(&ds) {
+        Ok(m) => {
+            out.push(sec("params", f64s(m.params().iter())));
+            out.push(sec("intercept", f64s([m.intercept()].iter())));
+            out.push(sec("predict", bools(m.predict(&d.rx).iter())));
+        }
+        Err(e) => out.push(sec("binary_error", format!("{:?}", e).into_bytes())),
+    }
+    let dsm = Dataset::new(d.rx.clone(), d.rc.clone());
+    match MultiLogisticRegression::default().max_iterations(40).fit(&dsm) {
+        Ok(mm) => {
+            out.push(sec("multi_params", f64s(mm.params().iter())));
+            out.push(sec("multi_intercept", f64s(mm.intercept().iter())));
+            out.push(sec("multi_predict", usizes(mm.predict(&d.rx).iter())));
+        }
+        Err(e) => out.push(sec("multi_error", format!("{:?}", e).into_bytes())),
+    }
+    out
+}
+fn it_svm(d: &Data) -> Sections {
+    use linfa_svm::Svm;
+    let ds = Dataset::new(d.rx.clone(), d.rb.clone());
+    let m = Svm::<f64, bool>::params().gaussian_kernel(5.0).pos_neg_weights(1.0, 1.0).fit(&ds).unwrap();
+    let dr = Dataset::new(d.rx.clone(), d.ry.clone());
+    let r = Svm::<f64, f64>::params().c_svr(10.0, Some(0.1)).linear_kernel().fit(&dr).unwrap();
+    vec![
+        sec("alpha", f64s(m.alpha.iter())),
+        sec("rho", f64s([m.rho].iter())),
+        sec("predict", bools(m.predict(&d.rx).iter())),
+        sec("svr_alpha", f64s(r.alpha.iter())),
+        sec("svr_predict", f64s(r.predict(&d.rx).iter())),
+    ]
+}
+fn it_pls(d: &Data) -> Sections {
+    use linfa_pls::PlsRegression;
+    let ds = Dataset::new(d.rx.clone(), d.ry2.clone());
+    let m = PlsRegression::params(2).scale(true).max_iterations(100).fit(&ds).unwrap();
+    vec![sec("coefficients", f64s(m.coefficients().iter())), sec("predict", f64s(m.predict(&d.rx).iter()))]
+}
+fn it_preproc(d: &Data) -> Sections {
+    use linfa_preprocessing::linear_scaling::LinearScaler;
+    use linfa_preprocessing::norm_scaling::NormScaler;
+    use linfa_preprocessing::whitening::Whitener;
+    let ds = DatasetBase::from(d.rx.clone());
+    let s = LinearScaler::standard().fit(&ds).unwrap();
+    let mm = LinearScaler::min_max().fit(&ds).unwrap();
+    let w = Whitener::pca().fit(&ds).unwrap();
+    let wc = Whitener::cholesky().fit(&ds).unwrap();
+    vec![
+        sec("standard", f64s(s.transform(d.rx.clone()).iter())),
+        sec("minmax", f64s(mm.transform(d.rx.clone()).iter())),
+        sec("l2norm", f64s(NormScaler::l2().transform(d.rx.clone()).iter())),
+        sec("whiten_pca", f64s(w.transform(d.rx.clone()).iter())),
+        sec("whiten_cholesky", f64s(wc.transform(d.rx.clone()).iter())),
+    ]
+}
+/// vocabularies compared as word -> column maps (the statement says so): for every word, in sorted
+/// word order, the contents of its column
+fn it_countvec(d: &Data) -> Sections {
+    use linfa_preprocessing::CountVectorizer;
+    use linfa_preprocessing::tf_idf_vectorization::TfIdfVectorizer;
+    let cv = CountVectorizer::params().n_gram_range(1, 2).fit(&d.texts).unwrap();
+    let dense = cv.transform(&d.texts).unwrap().to_dense();
+    let mut by_word: BTreeMap<String, Vec<usize>> = BTreeMap::new();
+    for (j, w) in cv.vocabulary().iter().enumerate() {
+        by_word.insert(w.clone(), dense.column(j).to_vec());
+    }
+    let mut bytes = vec![];
+    for (w, col) in &by_word {
+        bytes.extend(w.as_bytes());
+        bytes.push(0);
+        bytes.extend(usizes(col.iter()));
+    }
+    let tf = TfIdfVectorizer::default().fit(&d.texts).unwrap();
+    let tdense = tf.transform(&d.texts).unwrap().to_dense();
+    let mut by_word_t: BTreeMap<String, Vec<f64>> = BTreeMap::new();
+    for (j, w) in tf.vocabulary().iter().enumerate() {
+        by_word_t.insert(w.clone(), tdense.column(j).to_vec());
+    }
+    let mut tbytes = vec![];
+    for (w, col) in &by_word_t {
+        tbytes.extend(w.as_bytes());
+        tbytes.push(0);
+        tbytes.extend(f64s(col.iter()));
+    }
+    vec![sec("count_columns_by_word", bytes), sec("tfidf_columns_by_word", tbytes)]
+}
+fn it_dataset(d: &Data) -> Sections {
+    use rand::SeedableRng;
+    let ds = Dataset::new(d.rx.clone(), d.ry.clone());
+    let mut rng = rand::rngs::SmallRng::seed_from_u64(42);
+    let sh = ds.shuffle(&mut rng);
+    let corr = Dataset::new(d.rx.clone(), d.ry.clone()).pearson_correlation();
+    let dsl = Dataset::new(d.lat.clone(), d.lat_y.clone());
+    let mut labels = dsl.labels();
+    labels.sort_unstable();
+    vec![sec("shuffle", f64s(sh.records().iter())), sec("pearson", f64s(corr.get_coeffs().iter())), sec("labels_sorted", usizes(labels.iter()))]
+}
+
+fn it_diffusion(d: &Data) -> Sections {
+    use linfa_kernel::{Kernel, KernelMethod, KernelType};
+    use linfa_reduction::DiffusionMap;
+    let kernel = Kernel::params().kind(KernelType::Sparse(6)).method(KernelMethod::Gaussian(2.0)).transform(d.small.view());
+    let m = DiffusionMap::<f64>::params(2).steps(1).transform(&kernel).unwrap();
+    let kd = Kernel::params().method(KernelMethod::Gaussian(2.0)).transform(d.small.view());
+    let md = DiffusionMap::<f64>::params(2).steps(2).transform(&kd).unwrap();
+    vec![sec("embedding_sparse", f64s(m.embedding().iter())), sec("embedding_dense", f64s(md.embedding().iter())), sec("eigvals", f64s(md.eigvals().iter()))]
+}
+
+fn battery() -> Vec<Item> {
+    vec![
+        Item { name: "kmeans_pp_default_seed", parallel: true, f: it_kmeans_pp },
+        Item { name: "kmeans_random_init", parallel: true, f: it_kmeans_random },
+        Item { name: "kmeans_l1", parallel: true, f: it_kmeans_l1 },
+        Item { name: "kmeans_incremental", parallel: true, f: it_kmeans_incr },
+        Item { name: "gmm", parallel: true, f: it_gmm },
+        Item { name: "dbscan", parallel: false, f: it_dbscan },
+        Item { name: "optics", parallel: false, f: it_optics },
+        Item { name: "hierarchical", parallel: false, f: it_hier },
+        Item { name: "tree_gini", parallel: false, f: it_tree_gini },
+        Item { name: "tree_entropy_weighted", parallel: false, f: it_tree_entropy_w },
+        Item { name: "gaussian_nb", parallel: false, f: it_gnb },
+        Item { name: "multinomial_nb", parallel: false, f: it_mnb },
+        Item { name: "pca", parallel: false, f: it_pca },
+        Item { name: "random_projection", parallel: false, f: it_randproj },
+        Item { name: "diffusion_map", parallel: false, f: it_diffusion },
+        Item { name: "fast_ica_seeded", parallel: false, f: it_ica },
+        Item { name: "ftrl", parallel: false, f: it_ftrl },
+        Item { name: "linear", parallel: false, f: it_linear },
+        Item { name: "elasticnet", parallel: false, f: it_elasticnet },
+        Item { name: "logistic", parallel: false, f: it_logistic },
+        Item { name: "svm", parallel: false, f: it_svm },
+        Item { name: "pls", parallel: false, f: it_pls },
+        Item { name: "preprocessing", parallel: false, f: it_preproc },
+        Item { name: "vectorizers", parallel: false, f: it_countvec },
+        Item { name: "dataset_utils", parallel: false, f: it_dataset },
+    ]
+}
+
+fn data_seeds(seed: u64, thorough: bool) -> Vec<u64> {
+    let n = if thorough { 30 } else { 5 };
+    (0..n).map(|i| seed.wrapping_mul(1000).wrapping_add(i)).collect()
+}
+
+type Digests = BTreeMap<String, Vec<(String, String)>>;
+
+fn run_item_safe(item: &Item, d: &Data) -> Vec<(String, String)> {
+    match std::panic::catch_unwind(std::panic::AssertUnwindSafe(|| (item.f)(d))) {
+        Ok(s) => digest(&s),
+        Err(_) => vec![("panic".to_string(), "panic".to_string())],
+    }
+}
+
+fn child_main(spec: &str) -> ! {
+    let mut it = spec.split(':');
+    let seed: u64 = it.next().unwrap().parse().unwrap();
+    let thorough = it.next() == Some("thorough");
+    let items = battery();
+    let mut out = String::new();
+    for ds in data_seeds(seed, thorough) {
+        let d = make_data(ds, thorough);
+        for item in &items {
+            if std::env::var("VERIF_C20_TRACE").is_ok() {
+                eprintln!("item {} data {}", item.name, ds);
+            }
+            for (s, dg) in run_item_safe(item, &d) {
+                out.push_str(&format!("{}@{}\t{}\t{}\n", item.name, ds, s, dg));
+            }
+        }
+    }
+    print!("{}", out);
+    std::process::exit(0)
+}
+
+fn spawn_children(seed: u64, thorough: bool, start: usize, n: usize) -> Vec<std::process::Child> {
+    let exe = std::env::current_exe().expect("current_exe");
+    let tmp = std::env::temp_dir().join(format!("c20_child_{}", std::process::id()));
+    (start..start + n)
+        .map(|i| {
+            std::process::Command::new(&exe)
+                .args(["C20", if thorough { "thorough" } else { "quick" }, &seed.to_string(), tmp.to_str().unwrap()])
+                .env("VERIF_C20_CHILD", format!("{}:{}", seed, if thorough { "thorough" } else { "quick" }))
+                .env("VERIF_C20_CHILD_NO", i.to_string())
+                // children alternate between a narrow and the default pool: fresh process AND other pool size
+                .env("RAYON_NUM_THREADS", ["1", "3", "4", "2", "8", "16", "5", "6"][i % 8])
+                .stdout(std::process::Stdio::piped())
+                .stderr(std::process::Stdio::null())
+                .spawn()
+                .expect("spawn child")
+        })
+        .collect()
+}
+
+fn collect_child(c: std::process::Child) -> Digests {
+    let out = c.wait_with_output().expect("child output");
+    let mut m: Digests = BTreeMap::new();
+    for line in String::from_utf8_lossy(&out.stdout).lines() {
+        let p: Vec<&str> = line.split('\t').collect();
+        if p.len() == 3 {
+            m.entry(p[0].to_string()).or_default().push((p[1].to_string(), p[2].to_string()));
+        }
+    }
+    m
+}
+
+fn first_diff(a: &[(String, String)], b: &[(String, String)]) -> Option<String> {
+    if a.len() != b.len() {
+        return Some(format!("sections {} vs {}", a.len(), b.len()));
+    }
+    for (x, y) in a.iter().zip(b.iter()) {
+        if x != y {
+            return Some(format!("{}: {} vs {}", x.0, x.1, y.1));
+        }
+    }
+    None
+}
+
+fn estimator_runs(em: &mut Em, seed: u64) {
+    let thorough = em.thorough();
+    let n_children = if thorough { 8 } else { 3 };
+    // at most 3 children at a time
+    let mut child_digests: Vec<Digests> = vec![];
+    let mut launched = 0;
+    while launched < n_children {
+        let batch = (n_children - launched).min(3);
+        for c in spawn_children(seed, thorough, launched, batch) {
+            child_digests.push(collect_child(c));
+        }
+        launched += batch;
+    }
+    let items = battery();
+    let pools_all = [1usize, 2, 3, 4, 8, 16];
+    let pools_few = [1usize, 4];
+    let repeats = if thorough { 4 } else { 2 };
+    for ds in data_seeds(seed, thorough) {
+        let d = make_data(ds, thorough);
+        for item in &items {
+            let key = format!("{}@{}", item.name, ds);
+            let class = format!("est={}", item.name);
+            let op = format!("#run est={} data={} tier={}", item.name, ds, if thorough { "thorough" } else { "quick" });
+            let pools: &[usize] = if item.parallel || thorough { &pools_all } else { &pools_few };
+            let children: Vec<Option<Vec<(String, String)>>> = child_digests.iter().map(|c| c.get(&key).cloned()).collect();
+            em.count(&format!("est:{}", item.name));
+            let wanted = em.only.map(|o| o == em.idx).unwrap_or(true);
+            let base = if wanted { run_item_safe(item, &d) } else { vec![] };
+            if wanted && base.first().map(|x| x.0 == "panic").unwrap_or(true) {
+                em.count(&format!("est_panicked:{}", item.name));
+            }
+            if wanted && base.iter().any(|x| x.0.ends_with("error")) {
+                em.count(&format!("est_fit_error:{}", item.name));
+            }
+            em.case(op, |ctx| {
+                // a panic / fit error is not a determinism failure (it must merely be the same on every run);
+                // such cases are marked trivial so that they do not count as coverage
+                if base.first().map(|x| x.0 == "panic").unwrap_or(true) {
+                    ctx.mark_trivial();
+                }
+                for r in 0..repeats {
+                    let again = run_item_safe(item, &d);
+                    if let Some(df) = first_diff(&base, &again) {
+                        ctx.fail("repeat_in_process", &class, format!("run {} differs from the first run: {}", r + 2, df));
+                        break;
+                    }
+                }
+                for &t in pools {
+                    let pool = rayon::ThreadPoolBuilder::new().num_threads(t).build().expect("pool");
+                    let res = pool.install(|| run_item_safe(item, &d));
+                    if let Some(df) = first_diff(&base, &res) {
+                        ctx.fail("thread_pool", &class, format!("pool of {} threads differs from the default pool: {}", t, df));
+                        break;
+                    }
+                }
+                for (i, c) in children.iter().enumerate() {
+                    match c {
+                        None => ctx.fail("fresh_process", &class, format!("child process {} produced no result", i)),
+                        Some(cd) => {
+                            if let Some(df) = first_diff(&base, cd) {
+                                ctx.fail("fresh_process", &class, format!("fresh process {} differs: {}", i, df));
+                                break;
+                            }
+                        }
+                    }
+                }
+                "-".to_string()
+            });
+        }
+    }
+}
+
+// ------------------------------------------------------------------------------------------------
+// correspondence: disjoint-write parallel loops (k-means updaters)
+
+fn parfor_cases(em: &mut Em, rng: &mut Rng) {
+    use linfa_clustering::verif_hooks_c20 as hk;
+    use linfa_nn::distance::L2Dist;
+    let n_cases = if em.thorough() { 600 } else { 120 };
+    for ci in 0..n_cases {
+        // sizes on both sides of the point where ndarray/rayon start splitting
+        let n = match ci % 4 {
+            0 => rng.below(6),
+            1 => 1 + rng.below(40),
+            2 => 100 + rng.below(400),
+            _ => 1000 + rng.below(if em.thorough() { 9000 } else { 2000 }),
+        };
+        let d = 1 + rng.below(3);
+        let k = 1 + rng.below(5);
+        let obs: Vec<Vec<i64>> = (0..n).map(|_| (0..d).map(|_| rng.range(-6, 6)).collect()).collect();
+        // duplicates among centroids: argmin ties are real ties (first minimum wins)
+        let mut cents: Vec<Vec<i64>> = (0..k).map(|_| (0..d).map(|_| rng.range(-6, 6)).collect()).collect();
+        if k > 1 && rng.chance(1, 3) {
+            let a = rng.below(k);
+            let b = rng.below(k);
+            cents[a] = cents[b].clone();
+        }
+        let threads = *rng.pick(&[1usize, 2, 3, 4, 8, 16]);
+        let which = *rng.pick(&["memb", "dist", "both"]);
+        // the schedule the MODEL executes: a random permutation of the tasks (rayon's real schedule is
+        // whatever the pool does; the theorem says it cannot matter)
+        let mut sched: Vec<usize> = (0..n).collect();
+        rng.shuffle(&mut sched);
+        // long lines: describe obs by a generator seed when large
+        let op = format!(
+            "parfor which={} threads={} n={} d={} k={} cents={} obs={} sched={}",
+            which,
+            threads,
+            n,
+            d,
+            k,
+            list2(cents.iter().map(|r| r.iter()), |x| x.to_string()),
+            list2(obs.iter().map(|r| r.iter()), |x| x.to_string()),
+            list(sched.iter(), |x| x.to_string())
+        );
+        em.count(&format!("parfor:threads={}", threads));
+        em.count(&format!("parfor:n={}", if n < 100 { "small" } else if n < 1000 { "mid" } else { "large" }));
+        let class = format!("which={}", which);
+        em.case_valid(op, &class, |ctx| {
+            let c = Array2::from_shape_fn((k, d), |(i, j)| cents[i][j] as f64);
+            let o = Array2::from_shape_fn((n, d), |(i, j)| obs[i][j] as f64);
+            let run = |threads: usize| -> (Vec<usize>, Vec<f64>) {
+                let pool = rayon::ThreadPoolBuilder::new().num_threads(threads).build().expect("pool");
+                pool.install(|| {
+                    // sentinels: cells the loop fails to write stay visible
+                    let mut m = Array1::from_elem(n, usize::MAX);
+                    let mut ds = Array1::from_elem(n, -1.0f64);
+                    match which {
+                        "memb" => hk::update_cluster_memberships(&L2Dist, &c, &o, &mut m),
+                        "dist" => hk::update_min_dists(&L2Dist, &c, &o, &mut ds),
+                        _ => hk::update_memberships_and_dists(&L2Dist, &c, &o, &mut m, &mut ds),
+                    }
+                    (m.to_vec(), ds.to_vec())
+                })
+            };
+            let (m, ds) = run(threads);
+            // oracle: first-principles nearest centroid per row + schedule independence across pools
+            for i in 0..n {
+                let mut best = (0usize, i64::MAX);
+                for (ci, cc) in cents.iter().enumerate() {
+                    let dd: i64 = cc.iter().zip(obs[i].iter()).map(|(a, b)| (a - b) * (a - b)).sum();
+                    if dd < best.1 {
+                        best = (ci, dd);
+                    }
+                }
+                if which != "dist" {
+                    ctx.require(m[i] == best.0, "disjoint_write_result", &class, || format!("row {} membership {} expected {}", i, m[i], best.0));
+                }
+                if which != "memb" {
+                    ctx.require(ds[i] == best.1 as f64, "disjoint_write_result", &class, || format!("row {} dist {} expected {}", i, ds[i], best.1));
+                }
+            }
+            for t in [1usize, 2, 3, 4, 8, 16] {
+                if t == threads {
+                    continue;
+                }
+                let (m2, ds2) = run(t);
+                ctx.require(m2 == m && ds2.iter().zip(ds.iter()).all(|(a, b)| a.to_bits() == b.to_bits()), "schedule_independent", &class, || format!("pool {} vs pool {} differ", t, threads));
+            }
+            let total: f64 = Array1::from_vec(ds.clone()).sum();
+            let mstr = if which == "dist" { "-".to_string() } else { list(m.iter(), |x| x.to_string()) };
+            let dstr = if which == "memb" { "-".to_string() } else { list(ds.iter(), |x| format!("{}", *x as i64)) };
+            let sum = if which == "memb" { "-".to_string() } else { format!("{}", total as i64) };
+            format!("ok m={} d={} sum={}", mstr, dstr, sum)
+        });
+    }
+}
+
+// ------------------------------------------------------------------------------------------------
+// correspondence: hash-map folds
+
+fn modal_cases(em: &mut Em, rng: &mut Rng) {
+    use linfa_trees::verif_hooks_c20 as hk;
+    let n_cases = if em.thorough() { 4000 } else { 600 };
+    for _ in 0..n_cases {
+        let k = 1 + rng.below(6);
+        // distinct keys, in a random insertion order
+        let mut keys: Vec<usize> = (0..12).collect();
+        rng.shuffle(&mut keys);
+        keys.truncate(k);
+        // few distinct dyadic frequencies => many ties for the maximum
+        let freqs: Vec<f32> = (0..k).map(|_| *rng.pick(&[0.0f32, 0.5, 1.0, 1.0, 2.0, 2.0, 2.5, 3.0])).collect();
+        let maxf = freqs.iter().cloned().fold(f32::MIN, f32::max);
+        let nmax = freqs.iter().filter(|f| **f == maxf).count();
+        em.count(&format!("modal:ties={}", nmax.min(3)));
+        let op = format!("modal keys={} freqs={}", list(keys.iter(), |x| x.to_string()), list(freqs.iter(), |x| format!("{}", (*x * 2.0) as i64)));
+        let class = if nmax > 1 { "modal:tie" } else { "modal:unique_max" };
+        em.case_valid(op, class, |ctx| {
+            let mut results = vec![];
+            // fresh maps (fresh hash seeds), forward and reversed insertion orders
+            for rep in 0..8 {
+                let mut m: HashMap<usize, f32> = HashMap::new();
+                if rep % 2 == 0 {
+                    for (k, f) in keys.iter().zip(freqs.iter()) {
+                        m.insert(*k, *f);
+                    }
+                } else {
+                    for (k, f) in keys.iter().zip(freqs.iter()).rev() {
+                        m.insert(*k, *f);
+                    }
+                }
+                results.push(hk::find_modal_class(&m));
+            }
+            let r0 = results[0];
+            ctx.require(results.iter().all(|r| *r == r0), "hash_order_independent", class, || format!("find_modal_class returned {:?} on 8 equal maps", results));
+            let f0 = keys.iter().position(|k| *k == r0).map(|i| freqs[i]);
+            ctx.require(f0 == Some(maxf), "modal_is_max", class, || format!("returned {} with frequency {:?}, maximum {}", r0, f0, maxf));
+            format!("ok {}", r0)
+        });
+    }
+}
+
+/// oracle-only: the f32 reductions over the class-frequency map (impurities) give the same bits
+/// whatever the map's iteration order
+fn impurity_cases(em: &mut Em, rng: &mut Rng) {
+    use linfa_trees::verif_hooks_c20 as hk;
+    let n_cases = if em.thorough() { 3000 } else { 400 };
+    for _ in 0..n_cases {
+        let k = 2 + rng.below(6);
+        let mut keys: Vec<usize> = (0..12).collect();
+        rng.shuffle(&mut keys);
+        keys.truncate(k);
+        // sums of weights such as 0.3, 0.7, 1.0: not dyadic, so the order of an f32 sum shows
+        let freqs: Vec<f32> = (0..k).map(|_| (0..1 + rng.below(5)).map(|_| *rng.pick(&[0.3f32, 0.7, 1.0, 0.1, 2.0])).sum::<f32>()).collect();
+        em.count(&format!("impurity:classes={}", k.min(4)));
+        let op = format!("#impurity keys={} freqs={}", list(keys.iter(), |x| x.to_string()), list(freqs.iter(), |x| crate::util::hex32(*x)));
+        let class = if k >= 3 { "impurity:classes>=3" } else { "impurity:classes=2" };
+        em.case_valid(op, class, |ctx| {
+            let mut g = vec![];
+            let mut e = vec![];
+            for rep in 0..12 {
+                let mut m: HashMap<usize, f32> = HashMap::new();
+                let mut idx: Vec<usize> = (0..k).collect();
+                idx.rotate_left(rep % k);
+                if rep % 2 == 1 {
+                    idx.reverse();
+                }
+                for i in idx {
+                    m.insert(keys[i], freqs[i]);
+                }
+                g.push(hk::gini_impurity(&m).to_bits());
+                e.push(hk::entropy(&m).to_bits());
+            }
+            ctx.require(g.iter().all(|x| *x == g[0]), "hash_order_independent", &format!("{}:gini", class), || format!("gini impurity bits {:x?} on 12 equal maps", g));
+            ctx.require(e.iter().all(|x| *x == e[0]), "hash_order_independent", &format!("{}:entropy", class), || format!("entropy bits {:x?} on 12 equal maps", e));
+            "-".to_string()
+        });
+    }
+}
+
+fn nb_cases(em: &mut Em, rng: &mut Rng) {
+    use linfa_bayes::verif_hooks_c20 as hk;
+    let n_cases = if em.thorough() { 3000 } else { 400 };
+    for _ in 0..n_cases {
+        let k = 1 + rng.below(5);
+        let n = rng.below(7);
+        let mut classes: Vec<usize> = (0..10).collect();
+        rng.shuffle(&mut classes);
+        classes.truncate(k);
+        let jll: Vec<Vec<f64>> = (0..k).map(|_| (0..n).map(|_| -(rng.below(4) as f64) * 0.5).collect()).collect();
+        let mut tie = false;
+        for i in 0..n {
+            let mx = (0..k).map(|c| jll[c][i]).fold(f64::MIN, f64::max);
+            if (0..k).filter(|c| jll[*c][i] == mx).count() > 1 {
+                tie = true;
+            }
+        }
+        em.count(if tie { "nb:tie" } else { "nb:unique_max" });
+        let op = format!("nbargmax classes={} jll={}", list(classes.iter(), |x| x.to_string()), list2(jll.iter().map(|r| r.iter()), |x| hex64(*x)));
+        let class = if tie { "nb:tie" } else { "nb:unique_max" };
+        em.case_valid(op, class, |ctx| {
+            let mut results = vec![];
+            for rep in 0..8 {
+                if rep % 2 == 0 {
+                    results.push(hk::predict_from_jll(&classes, &jll));
+                } else {
+                    let c2: Vec<usize> = classes.iter().rev().cloned().collect();
+                    let j2: Vec<Vec<f64>> = jll.iter().rev().cloned().collect();
+                    results.push(hk::predict_from_jll(&c2, &j2));
+                }
+            }
+            let r0 = results[0].clone();
+            ctx.require(results.iter().all(|r| *r == r0), "hash_order_independent", class, || format!("predictions {:?} on 8 equal class tables", results));
+            for i in 0..n {
+                let mx = (0..k).map(|c| jll[c][i]).fold(f64::MIN, f64::max);
+                let pi = classes.iter().position(|c| *c == r0[i]);
+                ctx.require(pi.map(|p| jll[p][i]) == Some(mx), "argmax_is_max", class, || format!("sample {} predicted {} which is not a maximiser", i, r0[i]));
+            }
+            format!("ok {}", list(r0.iter(), |x| x.to_string()))
+        });
+    }
+}
+
+fn labels_cases(em: &mut Em, rng: &mut Rng) {
+    let n_cases = if em.thorough() { 2000 } else { 300 };
+    for _ in 0..n_cases {
+        let n = rng.below(12);
+        let t = 1 + rng.below(3);
+        let n2 = rng.below(8);
+        let a: Vec<Vec<usize>> = (0..n).map(|_| (0..t).map(|_| rng.below(7)).collect()).collect();
+        let b: Vec<usize> = (0..n2).map(|_| rng.below(9)).collect();
+        em.count(&format!("labels:targets={}", t));
+        let op = format!("labels t={} a={} b={}", t, list2(a.iter().map(|r| r.iter()), |x| x.to_string()), list(b.iter(), |x| x.to_string()));
+        em.case_valid(op, "labels", |ctx| {
+            let ta = Array2::from_shape_fn((n, t), |(i, j)| a[i][j]);
+            let tb = Array1::from_vec(b.clone());
+            let mut first: Option<(Vec<usize>, Vec<usize>)> = None;
+            for _ in 0..4 {
+                let mut l = ta.labels();
+                l.sort_unstable();
+                let mut c = ta.combined_labels(&tb);
+                c.sort_unstable();
+                match &first {
+                    None => first = Some((l, c)),
+                    Some(f) => ctx.require(f.0 == l && f.1 == c, "hash_order_independent", "labels", || "sorted label lists differ between calls".to_string()),
+                }
+            }
+            let (l, c) = first.unwrap();
+            let mut el: Vec<usize> = a.iter().flatten().cloned().collect();
+            el.sort_unstable();
+            el.dedup();
+            ctx.require(l == el, "labels_are_the_set", "labels", || format!("{:?} vs {:?}", l, el));
+            format!("ok labels={} combined={}", list(l.iter(), |x| x.to_string()), list(c.iter(), |x| x.to_string()))
+        });
+    }
+}
+
+fn hier_cases(em: &mut Em, rng: &mut Rng) {
+    use linfa_hierarchical::{HierarchicalCluster, Method};
+    use linfa_kernel::{Kernel, KernelMethod};
+    let n_cases = if em.thorough() { 1500 } else { 250 };
+    for _ in 0..n_cases {
+        let n = 2 + rng.below(if em.thorough() { 14 } else { 9 });
+        let d = 1 + rng.below(2);
+        let pts: Vec<Vec<i64>> = (0..n).map(|_| (0..d).map(|_| rng.range(0, 5)).collect()).collect();
+        let (mname, method) = *rng.pick(&[("single", Method::Single), ("complete", Method::Complete), ("average", Method::Average), ("ward", Method::Ward)]);
+        let by_dist = rng.chance(1, 3);
+        let nc = rng.below(n + 2);
+        let dis = *rng.pick(&[0.0f64, 0.05, 0.1, 0.2, 0.45, 0.8, 1.25, 3.0]);
+        let x = Array2::from_shape_fn((n, d), |(i, j)| pts[i][j] as f64);
+        let kernel = Kernel::params().method(KernelMethod::Gaussian(10.0)).transform(x.view());
+        let steps = linfa_hierarchical::verif_hooks_c20::linkage_steps(&kernel, method);
+        em.count(&format!("hier:method={}", mname));
+        em.count(if by_dist { "hier:stop=distance" } else { "hier:stop=num_clusters" });
+        let op = format!(
+            "hier n={} stop={} steps={} diss={}",
+            n,
+            if by_dist { format!("dist:{}", hex64(dis)) } else { format!("num:{}", nc) },
+            list2(steps.iter().map(|s| [s.0, s.1]), |x| x.to_string()),
+            list(steps.iter(), |s| hex64(s.2))
+        );
+        let class = format!("hier:{}", if by_dist { "distance" } else { "num_clusters" });
+        let invalid = !by_dist && nc == 0;
+        em.case(op, |ctx| {
+            let mut first: Option<Vec<usize>> = None;
+            for _ in 0..6 {
+                let kernel = Kernel::params().method(KernelMethod::Gaussian(10.0)).transform(x.view());
+                let p = HierarchicalCluster::default().with_method(method);
+                let p = if by_dist { p.max_distance(dis) } else { p.num_clusters(nc) };
+                let res = match p.transform(kernel) {
+                    Ok(r) => r,
+                    Err(_) => {
+                        ctx.require(invalid, "no_error", &class, || "valid stopping condition rejected".to_string());
+                        return "err".to_string();
+                    }
+                };
+                let l = res.targets().clone();
+                match &first {
+                    None => first = Some(l),
+                    Some(f) => {
+                        if *f != l {
+                            ctx.fail("hash_order_independent", &class, format!("two runs label the same partition differently: {:?} vs {:?}", f, l));
+                            break;
+                        }
+                    }
+                }
+            }
+            let l = first.unwrap();
+            // ids are 0..c-1 and numbered by first appearance (= by smallest member)
+            let mut seen = 0usize;
+            let mut canon = true;
+            for &v in &l {
+                if v > seen {
+                    canon = false;
+                }
+                if v == seen {
+                    seen += 1;
+                }
+            }
+            ctx.require(canon, "ids_by_smallest_member", &class, || format!("labels {:?} are not numbered by smallest member", l));
+            format!("ok {}", list(l.iter(), |x| x.to_string()))
+        });
+    }
+}
+
+fn rng_clone_cases(em: &mut Em, rng: &mut Rng) {
+    use linfa_clustering::{GaussianMixtureModel, KMeans, KMeansInit};
+    use rand_xoshiro::rand_core::SeedableRng;
+    let n_cases = if em.thorough() { 40 } else { 10 };
+    for _ in 0..n_cases {
+        let seed = rng.next();
+        let dseed = rng.next() % 100000;
+        let init = *rng.pick(&["random", "pp"]);
+        let op = format!("#rng_clone seed={} data={} init={}", seed, dseed, init);
+        em.case(op, |ctx| {
+            let mut r = Rng::new(dseed);
+            let x = Array2::from_shape_fn((300, 2), |_| (r.unit() - 0.5) * 10.0);
+            let ds = DatasetBase::from(x);
+            let g = rand_xoshiro::Xoshiro256Plus::seed_from_u64(seed);
+            // ONE parameter object fitted three times: the generator inside must not advance
+            let params = KMeans::params_with_rng(3, g.clone()).init_method(if init == "random" { KMeansInit::Random } else { KMeansInit::KMeansPlusPlus }).n_runs(2).max_n_iterations(20);
+            let a = params.fit(&ds).unwrap();
+            let b = params.fit(&ds).unwrap();
+            let c = params.fit(&ds).unwrap();
+            let same = |p: &KMeans<f64, _>, q: &KMeans<f64, _>| p.centroids().iter().zip(q.centroids().iter()).all(|(u, v)| u.to_bits() == v.to_bits()) && p.inertia().to_bits() == q.inertia().to_bits();
+            ctx.require(same(&a, &b) && same(&a, &c), "rng_cloned_per_fit", "est=kmeans", || "fitting one parameter object repeatedly gives different models".to_string());
+            let gp = GaussianMixtureModel::params_with_rng(2, g).max_n_iterations(15).n_runs(2);
+            let ga = gp.fit(&ds).unwrap();
+            let gb = gp.fit(&ds).unwrap();
+            ctx.require(ga.means().iter().zip(gb.means().iter()).all(|(u, v)| u.to_bits() == v.to_bits()), "rng_cloned_per_fit", "est=gmm", || "fitting one GMM parameter object twice gives different means".to_string());
+            "-".to_string()
+        });
+    }
+}
+
+pub fn run(em: &mut Em, rng: &mut Rng) {
+    if let Ok(spec) = std::env::var("VERIF_C20_CHILD") {
+        child_main(&spec);
+    }
+    let seed = rng.next() % 1_000_000;
+    parfor_cases(em, rng);
+    modal_cases(em, rng);
+    impurity_cases(em, rng);
+    nb_cases(em, rng);
+    labels_cases(em, rng);
+    hier_cases(em, rng);
+    rng_clone_cases(em, rng);
+    estimator_runs(em, seed);
+}
